@@ -44,6 +44,10 @@ def run_measure(R, cfg):
     H = base.get(cfg)
 
     def f(st, act, ns, ts):
+        if hasattr(H, "measure_local"):
+            # ranking argument stated as frame + local delta (a global count before/after is pigeonhole-hard on big boards,
+            # e.g. Sudoku's 81 cells): the harness returns the obligations that make measure(S') == measure(S) + 1 on MID steps
+            return H.measure_local(st, act, ns, ts)
         m0, bound = H.measure(st)
         m1, _ = H.measure(ns)
         mid = vs(ts.step_type) == 1
